@@ -278,6 +278,10 @@ fn report(f: &Fail) -> ! {
 /// Thrown by `fail` when an oracle of ANOTHER property fires: the run is corrupted from here on (outputs duplicated,
 /// counters off, ...), whatever follows says nothing about the property under search, so the history is abandoned.
 struct AbortHistory;
+/// Oracles of these properties compare identities / counts of yielded values with the model: once one of them has fired the
+/// model and the real collection have diverged and later observations of the same history mean nothing.  Oracles of the other
+/// properties (justification of Pending, limits, hints, addresses, poll counts) do not disturb the run.
+const CORRUPTING: [&str; 7] = ["C02", "C04", "C05", "C06", "C07", "C10", "C11"];
 thread_local! { static LAST_PANIC: RefCell<String> = RefCell::new(String::new()); }
 fn install_panic_hook() {
     std::panic::set_hook(Box::new(|info| {
@@ -461,7 +465,7 @@ fn collections_history(prop: &'static str, rng: &mut Rng, it: usize, skip_refuse
             if props.contains(&prop) || via_refusal {
                 let what = if via_refusal { format!("{what} (after a refused push in this history: the refusal disturbed the collection)") } else { what };
                 report(&Fail { prop, scenario: scenario.clone(), history: hist.clone(), what })
-            } else {
+            } else if props.iter().any(|p| CORRUPTING.contains(p)) {
                 std::panic::panic_any(AbortHistory)
             }
         };
@@ -816,7 +820,7 @@ fn run_adapters(prop: &'static str, seed: u64, iters: usize) {
         guarded(prop, &["C09", "C10"], "run_adapters", it, || {
         // every 40th history is a burst: many immediately-ready jobs, so that internal per-poll budgets are crossed
         let burst = it % 40 == 39;
-        let n = if burst { [1usize, 4, 48][rng.below(3)] } else { 1 + rng.below(3) };
+        let n = if burst { [1usize, 4, 48, 65, 130][rng.below(5)] } else { 1 + rng.below(3) };
         let len = if burst { 100 + rng.below(100) } else { rng.below(8) };
         let mut script: Vec<Up> = vec![];
         for _ in 0..len {
@@ -842,7 +846,7 @@ fn run_adapters(prop: &'static str, seed: u64, iters: usize) {
         let waker = Waker::from(tw.clone());
         let mut cx = Context::from_waker(&waker);
         let mut hist: Vec<String> = vec![];
-        let fail = |props: &[&str], hist: &Vec<String>, what: String| { if props.contains(&prop) { report(&Fail { prop, scenario: scenario.clone(), history: hist.clone(), what }) } else { std::panic::panic_any(AbortHistory) } };
+        let fail = |props: &[&str], hist: &Vec<String>, what: String| { if props.contains(&prop) { report(&Fail { prop, scenario: scenario.clone(), history: hist.clone(), what }) } else if props.iter().any(|p| CORRUPTING.contains(p)) { std::panic::panic_any(AbortHistory) } };
         // build
         type BoxS = Pin<Box<dyn Stream<Item = Result<usize, usize>>>>;
         let called = Rc::new(Cell::new(0usize));
@@ -875,6 +879,7 @@ fn run_adapters(prop: &'static str, seed: u64, iters: usize) {
         };
         let mut yielded: Vec<usize> = vec![];
         let mut finished = false;
+        let mut hints: Vec<(usize, usize, Option<usize>, usize)> = vec![];
         for _step in 0..(if burst { 600 } else { 40 }) {
             match rng.below(4) {
                 0 => {
@@ -935,14 +940,12 @@ fn run_adapters(prop: &'static str, seed: u64, iters: usize) {
                         fail(&["C16"], &hist, format!("{pulled_not_yielded} items pulled but not yielded, limit {n}"));
                     }
                     if ust.polled_after_end.get() {
-                        fail(&["C10","C05"], &hist, "upstream polled again after it returned None".into());
+                        fail(&["C10"], &hist, "upstream polled again after it returned None".into());
                     }
                     if which != 4 && !finished {
-                        let remaining = ust.honest_remaining.get() + (cs.len() - yielded.len());
+                        // judged exactly, at the end of the run: against the number of items the stream really went on to yield
                         let (lo, hi) = s.size_hint();
-                        if lo > remaining || hi.map(|h| h < remaining).unwrap_or(false) {
-                            fail(&["C17"], &hist, format!("size_hint ({lo},{hi:?}) does not bracket the {remaining} items still to come"));
-                        }
+                        hints.push((yielded.len(), lo, hi, hist.len()));
                     }
                     for (i, c) in cs.iter().enumerate() {
                         if c.polled_after_done.get() {
@@ -956,6 +959,32 @@ fn run_adapters(prop: &'static str, seed: u64, iters: usize) {
             }
             if finished {
                 break;
+            }
+        }
+        if prop == "C17" && which != 4 {
+            // run the stream to its end (every job completes), then compare every recorded hint with what was really yielded after it
+            let mut guard = 0;
+            while !finished && guard < 4000 {
+                guard += 1;
+                for c in ust.children.borrow().iter() {
+                    if !c.ready.get() { c.ready.set(true); wake_child(c); }
+                }
+                match s.as_mut().poll_next(&mut cx) {
+                    Poll::Ready(Some(Ok(id))) | Poll::Ready(Some(Err(id))) => yielded.push(id),
+                    Poll::Ready(None) => finished = true,
+                    Poll::Pending => {}
+                }
+            }
+            if finished {
+                let total = yielded.len();
+                for (y, lo, hi, hl) in &hints {
+                    let rem = total - y;
+                    if *lo > rem || hi.map(|h| h < rem).unwrap_or(false) {
+                        hist.truncate(*hl);
+                        hist.push(format!("size_hint() -> ({lo},{hi:?}); then every job completes and the stream is polled to its end: {rem} more items"));
+                        fail(&["C17"], &hist, format!("size_hint ({lo},{hi:?}) does not bracket the {rem} items the stream went on to yield"));
+                    }
+                }
             }
         }
         drop(s);
@@ -1028,7 +1057,7 @@ fn run_join(prop: &'static str, seed: u64, iters: usize) {
         let waker = Waker::from(tw.clone());
         let mut cx = Context::from_waker(&waker);
         let mut hist: Vec<String> = vec![];
-        let fail = |props: &[&str], hist: &Vec<String>, what: String| { if props.contains(&prop) { report(&Fail { prop, scenario: scenario.clone(), history: hist.clone(), what }) } else { std::panic::panic_any(AbortHistory) } };
+        let fail = |props: &[&str], hist: &Vec<String>, what: String| { if props.contains(&prop) { report(&Fail { prop, scenario: scenario.clone(), history: hist.clone(), what }) } else if props.iter().any(|p| CORRUPTING.contains(p)) { std::panic::panic_any(AbortHistory) } };
         let children: Vec<St> = (0..n).map(|_| Rc::new(ChildSt::default())).collect();
         for c in &children {
             if rng.below(3) == 0 {
@@ -1106,6 +1135,9 @@ fn run_join(prop: &'static str, seed: u64, iters: usize) {
                     for (i, c) in children.iter().enumerate() {
                         if c.polled_after_done.get() {
                             fail(&["C05"], &hist, format!("input {i} polled after completion"));
+                        }
+                        if c.done.get() && c.dropped.get() == 0 {
+                            fail(&["C05"], &hist, format!("input {i} has completed but was not released by the end of the poll that observed it"));
                         }
                         if c.moved.get() {
                             fail(&["C08"], &hist, format!("input {i} observed at two different addresses"));
@@ -1289,7 +1321,7 @@ fn run_merge(prop: &'static str, seed: u64, iters: usize) {
         let modes = [rng.below(4), rng.below(4), rng.below(4)];
         let scenario = format!("{}({nsrc} sources)", if unbounded { "MergeUnbounded" } else { "MergeBounded" });
         let mut hist: Vec<String> = vec![];
-        let fail = |props: &[&str], hist: &Vec<String>, what: String| { if props.contains(&prop) { report(&Fail { prop, scenario: scenario.clone(), history: hist.clone(), what }) } else { std::panic::panic_any(AbortHistory) } };
+        let fail = |props: &[&str], hist: &Vec<String>, what: String| { if props.contains(&prop) { report(&Fail { prop, scenario: scenario.clone(), history: hist.clone(), what }) } else if props.iter().any(|p| CORRUPTING.contains(p)) { std::panic::panic_any(AbortHistory) } };
         let mut sts: Vec<Rc<SrcSt>> = vec![];
         let mut srcs = vec![];
         for i in 0..nsrc {
